@@ -174,6 +174,10 @@ func (b *byteBuffer) UnmarshalJSON(data []byte) error {
 }
 
 func (b *byteBuffer) base64() string {
+	// Handling nil here like bytes(), for the absent field, such as the protected header.
+	if b == nil {
+		return ""
+	}
 	return base64URLEncode(b.data)
 }
 
